@@ -49,11 +49,14 @@ def make_world(seed, collide):
         per_chr_t = defaultdict(int)
         per_chr_g = defaultdict(int)
         per_chr_e = defaultdict(int)
+        genes_only = collide == "genes-only"
         for g in w.genes:
-            if rng.random() < 0.5:
+            # 'genes-only': on the third sequence EVERY gene has an IsoQuant-style id (consecutive numbers) and NO transcript has one (transcripts
+            # renamed <gene>.tN by a downstream step, or filtered while the gene records were kept)
+            if rng.random() < 0.5 or (genes_only and g.chrom == w.chrom_order[2]):
                 per_chr_g[g.chrom] += 1
                 # numbers both below and above what a fresh run allocates
-                num = per_chr_g[g.chrom] if rng.random() < 0.7 else 40 + per_chr_g[g.chrom]
+                num = per_chr_g[g.chrom] if (rng.random() < 0.7 or (genes_only and g.chrom == w.chrom_order[2])) else 40 + per_chr_g[g.chrom]
                 id_map[g.id] = "novel_gene_%s_%d" % (g.chrom, num)
             dense = {w.chrom_order[0]: "nnic", w.chrom_order[1]: "nic"}.get(g.chrom)
             for t in g.transcripts:
@@ -62,7 +65,7 @@ def make_world(seed, collide):
                     # first numbers a fresh run would hand out are all taken
                     per_chr_t[g.chrom] += 1
                     id_map[t.id] = "transcript%d.%s.%s" % (per_chr_t[g.chrom], g.chrom, dense)
-                elif rng.random() < 0.5:
+                elif rng.random() < 0.5 and not (genes_only and g.chrom == w.chrom_order[2]):
                     per_chr_t[g.chrom] += 1
                     num = per_chr_t[g.chrom] if rng.random() < 0.7 else 60 + per_chr_t[g.chrom]
                     id_map[t.id] = "transcript%d.%s.%s" % (num, g.chrom, rng.choice(("nic", "nnic")))
@@ -189,14 +192,15 @@ def run(chk, scratch):
             jobs.append((chk.seed * 50 + si, mode, 1 if (si + len(mode)) % 2 else 3))
     # the colliding reference once more as GFF3 whose transcripts are typed mRNA (an extended annotation passed through a converter)
     jobs.append((chk.seed * 50, "collide-gff3", 1))
+    jobs.append((chk.seed * 50 + 1, "collide-genes-only", 2))
 
     def one(job):
         seed, mode, threads = job
         d = os.path.join(scratch, "w%d_%s" % (seed, mode))
-        w, id_map, exon_ids = make_world(seed, mode.startswith("collide"))
+        w, id_map, exon_ids = make_world(seed, "genes-only" if mode == "collide-genes-only" else mode.startswith("collide"))
         os.makedirs(d)
         w.write_fasta(os.path.join(d, "g.fa"))
-        w.write_gtf(os.path.join(d, "a.gtf"), id_map=id_map, exon_ids=exon_ids if mode == "collide" else None)
+        w.write_gtf(os.path.join(d, "a.gtf"), id_map=id_map, exon_ids=exon_ids if mode in ("collide", "collide-genes-only") else None)
         if mode == "collide-gff3":
             w.write_gff3(os.path.join(d, "a.gff3"), id_map=id_map, exon_ids=exon_ids)
         w.write_bam(os.path.join(d, "r.bam"))
